@@ -12,7 +12,7 @@ CLOCK_PKGS = ['pkg/streamwriter', 'pkg/frame']
 ROOTS = ['verifHarness_C06', 'verifHarness_C09_step', 'verifHarness_C01_v2']
 ALLOW = 'bufio,io,encoding/binary,errors,bytes'
 INITS = 'io,bufio,errors,github.com/bluenviron/gomavlib/v3/pkg/message'
-OPTIONS = {}
+OPTIONS = {'now_stub': True}
 ANCHOR_FILES = ['/repo/pkg/frame/v2_frame.go', '/repo/pkg/frame/reader.go', '/repo/pkg/frame/writer.go',
                 '/repo/pkg/streamwriter/writer.go', '/repo/channel.go', '/repo/node.go']
 
@@ -35,7 +35,8 @@ def tasks(tier):
     for n in (254, 255):
         ts.append(Task('verifHarness_C01_v2', [n, 1, 0]))
     for shape in range(4):
-        ts.append(Task('verifHarness_C06_writemessage', [shape], {'x25_uf': True}))
+        for unset in (0, 1):
+            ts.append(Task('verifHarness_C06_writemessage', [shape, unset], {'x25_uf': True}))
     for n in (0, 1, 31, 32, 33, 64):
         ts.append(Task('verifHarness_C06_key', [n]))
     # (d) the node hands its keys to each channel's reader and writer
